@@ -595,6 +595,8 @@ class Interp:
             return container.contains(self, item)
         if isinstance(container, dict):
             container = list(container.keys())
+        if isinstance(container, SetVal):
+            container = list(container.items)
         if isinstance(container, (list, tuple, set, frozenset)):
             acc = False
             for x in container:
@@ -758,7 +760,10 @@ class Interp:
         acc = True
         for op, rn in zip(node.ops, node.comparators):
             right = self.eval(rn, fr)
-            acc = self.b_and(acc, self.compare(op, left, right, node))
+            c = self.compare(op, left, right, node)
+            if not isinstance(c, (bool, SBool)) and len(node.ops) == 1:
+                return c  # an element-wise comparison object (numpy mask)
+            acc = self.b_and(acc, c)
             left = right
         return acc
 
@@ -954,6 +959,8 @@ class Interp:
         return B.py_getattr(self, obj, name, node)
 
     def setattr(self, obj, name, value, node=None):
+        if self.P.ghost.get("summary_depth", 0) > 0:
+            raise Unsupported("the body of a summarised loop assigns an attribute (needs a loop contract)")
         if isinstance(obj, Obj):
             s = obj.cls.find("setters", name)
             if s is not None:
@@ -1022,6 +1029,8 @@ class Interp:
         raise PyRaise("KeyError")
 
     def setitem(self, base, idx, value, node=None):
+        if self.P.ghost.get("summary_depth", 0) > 0 and not isinstance(base, Model):
+            raise Unsupported("the body of a summarised loop stores into a container (needs a loop contract)")
         if isinstance(base, Model):
             base.setitem(self, idx, value)
             return
